@@ -100,9 +100,14 @@ let header (tok : string list) =
   let cfg = List.map kv (List.tl (List.tl (List.tl tok))) in
   let get k d = try List.assoc k cfg with Not_found -> d in
   let dflt = List.mem_assoc "default" cfg in
-  let cap = if dflt then n_of_int 8 else n_of_string (get "cap" "8") in
+  (* defaults are the source's own (cc_array_conf_init / cc_array_sized_conf_init), through the translated constants *)
+  let sized = List.mem_assoc "esz" cfg in
+  let dcap = if sized then sIZED_DEFAULT_CAPACITY else aRRAY_DEFAULT_CAPACITY in
+  let dnum = if sized then sIZED_DEFAULT_EXPANSION_FACTOR_num else aRRAY_DEFAULT_EXPANSION_FACTOR_num in
+  let dden = if sized then sIZED_DEFAULT_EXPANSION_FACTOR_den else aRRAY_DEFAULT_EXPANSION_FACTOR_den in
+  let cap = if dflt || not (List.mem_assoc "cap" cfg) then dcap else n_of_string (get "cap" "8") in
   red_mask := (match int_of_string (get "esz" "8") with 8 -> w64 | k -> n_of_string ("0x" ^ String.make (2 * k) 'f'));
-  let (num, den) = if dflt then (n_of_int 2, n_of_int 1) else
+  let (num, den) = if dflt || not (List.mem_assoc "ef" cfg) then (dnum, dden) else
     (match String.split_on_char '/' (get "ef" "2/1") with [x; y] -> (n_of_string x, n_of_string y) | _ -> failwith "bad ef") in
   let tg = if get "mem" "libc" = "conf" && not dflt then Conf else Libc in
   let tg = if dflt then Libc else tg in
